@@ -1,8 +1,140 @@
 package main
 
 import (
+	"context"
+	"fmt"
+	"net"
+	"time"
+
+	"github.com/plgd-dev/go-coap/v3/message"
+	"github.com/plgd-dev/go-coap/v3/message/codes"
+	"github.com/plgd-dev/go-coap/v3/message/pool"
+	coapNet "github.com/plgd-dev/go-coap/v3/net"
+	"github.com/plgd-dev/go-coap/v3/udp/client"
+	udpserver "github.com/plgd-dev/go-coap/v3/udp/server"
+
 	"verif/ev"
 	"verif/mcx"
+	"verif/vrt"
 )
 
-func addUDPSessionScenarios(r *ev.Run, scs *[]*mcx.Scenario) {}
+// The REAL udp/server.Session (the session type behind udp.Dial / udp.Client and DTLS-less server
+// conns) over the harness packet conn, socket owned by the library (closeSocket = true), with its
+// Run loop: operations interrupted by Close from two goroutines, by a read error of the socket
+// and by context cancellation.
+
+type ucfg struct {
+	Op      string // do | observe | ping | idle
+	Intr    string // cancel | close2 | read-error
+	Preempt int
+}
+
+func (c ucfg) String() string {
+	return fmt.Sprintf("udp-session op=%s interrupt=%s preempt<=%d", c.Op, c.Intr, c.Preempt)
+}
+
+func udpSessionScenario(c ucfg) *mcx.Scenario {
+	return &mcx.Scenario{
+		Name:        c.String(),
+		Bounds:      mcx.Bounds{Preempt: c.Preempt, Env: -1, Select: 0},
+		DeadlockSig: "blocked-forever/udp-session-" + c.Op + "/" + c.Intr,
+		Body: func(s *vrt.Sched) func() (string, []mcx.Finding) {
+			var fs []mcx.Finding
+			result := "not-returned"
+			returned, runDone := false, false
+			onClose := 0
+			var cc *client.Conn
+			var sock *net.UDPConn
+			vrt.App("setup", func() {
+				var err error
+				sock, err = net.ListenUDP("udp4", &net.UDPAddr{IP: net.IPv4(127, 0, 0, 1)})
+				if err != nil {
+					panic(err)
+				}
+				l, pc := coapNet.NewUDPConnVerif(sock, nil)
+				raddr := &net.UDPAddr{IP: net.IPv4(10, 0, 0, 1), Port: 5683}
+				session := udpserver.NewSession(context.Background(), context.Background(), l, raddr, 1472, 1472, true)
+				cfg := client.DefaultConfig
+				cfg.MessagePool = pool.New(0, 0)
+				cfg.Errors = func(error) {}
+				cfg.PeriodicRunner = func(func(time.Time) bool) {}
+				mid := int32(100)
+				cfg.GetMID = func() int32 { mid++; return mid }
+				cfg.LimitClientParallelRequests, cfg.LimitClientEndpointParallelRequests = 2, 2
+				cc = client.NewConnWithOpts(session, &cfg)
+				cc.AddOnClose(func() { onClose++ })
+				cc.AddOnClose(func() { onClose++ })
+				vrt.Lib("conn-run", func() { _ = cc.Run(); runDone = true })
+				ctx, cancel := context.WithCancel(context.Background())
+				vrt.App("op", func() {
+					var err error
+					switch c.Op {
+					case "do":
+						req := cc.AcquireMessage(ctx)
+						_ = req.SetupGet("/a", message.Token{0xD1})
+						req.SetType(message.Confirmable)
+						_, err = cc.Do(req)
+					case "observe":
+						_, err = cc.Observe(ctx, "/obs", func(*pool.Message) {})
+					case "ping":
+						err = cc.Ping(ctx)
+					case "idle":
+						vrt.Recv(cc.Done())
+					}
+					returned = true
+					result = fmt.Sprint(err)
+				})
+				switch c.Intr {
+				case "cancel":
+					vrt.App("interrupter", func() {
+						cancel()
+						if c.Op == "idle" {
+							_ = cc.Close()
+						}
+					})
+				case "close2":
+					for i := 0; i < 2; i++ {
+						vrt.App(fmt.Sprintf("closer%d", i), func() { _ = cc.Close() })
+					}
+				case "read-error":
+					vrt.App("socket", func() { pc.ReadErr = fmt.Errorf("recvmsg: network is down") })
+				}
+				_ = codes.Empty
+			})
+			return func() (string, []mcx.Finding) {
+				if sock != nil {
+					_ = sock.Close()
+				}
+				fail := func(sig, format string, a ...any) {
+					fs = append(fs, mcx.Finding{Sig: sig, What: c.String() + ": " + fmt.Sprintf(format, a...)})
+				}
+				closed := c.Intr != "cancel" || c.Op == "idle"
+				if closed && !s.Deadlock {
+					select {
+					case <-cc.Done():
+					default:
+						fail("udp-session/done-not-closed", "Done() is not closed although the connection was closed (Run returned=%v)", runDone)
+					}
+					if !runDone {
+						fail("udp-session/run-did-not-return", "Session.Run did not return after the connection was closed")
+					}
+					if onClose != 2 {
+						fail("udp-session/on-close-callback-count", "2 on-close callbacks were registered, %d executions happened", onClose)
+					}
+					if !returned {
+						fail("udp-session/op-never-returned", "the operation did not return")
+					}
+				}
+				return result, fs
+			}
+		},
+	}
+}
+
+func addUDPSessionScenarios(r *ev.Run, scs *[]*mcx.Scenario) {
+	for _, op := range []string{"do", "observe", "ping", "idle"} {
+		for _, in := range []string{"cancel", "close2", "read-error"} {
+			*scs = append(*scs, udpSessionScenario(ucfg{Op: op, Intr: in, Preempt: ev.Pick(r, 1, 2)}))
+		}
+	}
+}
